@@ -947,11 +947,19 @@ func (e *c20Env) exService(c *configuration, sockets bool) (unsafe []string) {
 	}
 	// An unserviceable limit fails every time; a lost datagram or two
 	// SO_REUSEPORT sockets that were given the same ephemeral port do not.
+	// Only failures of that kind (no UDP answer, no QUIC handshake) are retried.
 	var su []string
 	for attempt := 0; attempt < 3; attempt++ {
 		prometheus.DefaultRegisterer = prometheus.NewRegistry()
 		su = e.exSockets(c, b, handlers, srvGrps, errColl)
-		if len(su) == 0 {
+		retry := len(su) > 0
+		for _, x := range su {
+			if !strings.Contains(x, "UDP query") && !strings.Contains(x, "DoQ query: dial") &&
+				!strings.HasPrefix(x, "environment:") {
+				retry = false
+			}
+		}
+		if !retry {
 			break
 		}
 	}
@@ -1125,7 +1133,7 @@ func (e *c20Env) exSockets(
 	if u != "" {
 		return []string{u}
 	}
-	const wait = 2 * time.Second
+	const wait = 1500 * time.Millisecond
 	if a, b := lsnrs["verif_dns"], lsnrs["verif_doq"]; a != nil && b != nil {
 		if pa, pb := a.LocalUDPAddr().(*net.UDPAddr), b.LocalUDPAddr().(*net.UDPAddr); pa != nil && pb != nil && pa.Port == pb.Port {
 			return []string{"environment: both UDP listeners were given port " + strconv.Itoa(pa.Port)}
